@@ -42,11 +42,18 @@ type event struct {
 	SType byte   `json:"st,omitempty"`
 	PType byte   `json:"pt,omitempty"`
 	Body  int    `json:"body,omitempty"`
+	// StrayB2 / StrayB3: header bytes 2 and 3 that carry no meaning for this control type are set
+	// to these values (E37: the receiver does not look at them); the prescribed answer is the same
+	StrayB2 byte `json:"b2,omitempty"`
+	StrayB3 byte `json:"b3,omitempty"`
 }
 
 func (e event) String() string {
 	if e.Kind == "raw" {
 		return fmt.Sprintf("raw(st=%d,pt=%d,body=%d)", e.SType, e.PType, e.Body)
+	}
+	if e.StrayB2 != 0 || e.StrayB3 != 0 {
+		return fmt.Sprintf("%s[b2=%02x,b3=%02x]", e.Kind, e.StrayB2, e.StrayB3)
 	}
 	return e.Kind
 }
@@ -338,6 +345,14 @@ func run(t *testing.T, cfg config, hist []event) (obs []stepObs, fail *failure, 
 				bad("harness", "unknown event %q", ev.Kind)
 				return
 			}
+			if send && (ev.StrayB2 != 0 || ev.StrayB3 != 0) {
+				if ev.StrayB2 != 0 {
+					sent.B2 = ev.StrayB2
+				}
+				if ev.StrayB3 != 0 {
+					sent.B3 = ev.StrayB3
+				}
+			}
 			if send {
 				w.Send(sent)
 			}
@@ -447,7 +462,7 @@ type replayCase struct {
 func TestCheck(t *testing.T) {
 	vfw.Main(t, "C08", func(c *vfw.Ctx) {
 		c.Level("model_checking")
-		c.Rule("E2 tree search: every history of peer frames of length <= D (quick 3/4, thorough 4/5) over an 18-symbol alphabet {the local application starting a reply-expected send that stays open (the prescribed answers must not depend on it), Select/Deselect/Linktest/Separate.req, orphan Select/Deselect/Linktest.rsp, answer to the library's own Select.req, orphan Reject.req, data primary/secondary/foreign-session, PType!=0, undefined SType, control frame with body, second TCP connect / reconnect} replayed on a fresh real hsmsss connection per history (synctest bubble, in-memory network), every step compared with the SEMI E37 reference responder (exact frames FIFO, State(), handler deliveries, connection liveness); plus depth-1: every SType 0..255 x PType {0,1,255} x body {0,1} that is malformed, in selected and not-selected base states; configurations passive/active(after select, during select) x equip/host x session-id validation; plus bursts: N in {3,64,65,66,200} (thorough up to 1000; 64 = default depth of the send queue) Linktest.req / undefined-SType / PType!=0 frames in ONE segment at a Selected library (peer reading, or its window closed while they arrive): exactly N answers (Linktest.rsp / Reject.req reason 1 / 2) in arrival order each echoing its own system bytes, link and state unchanged. state = history prefix (a live connection cannot be cloned), non-trivial = history length >= 1")
+		c.Rule("E2 tree search: every history of peer frames of length <= D (quick 3/4, thorough 4/5) over an 18-symbol alphabet {the local application starting a reply-expected send that stays open (the prescribed answers must not depend on it), Select/Deselect/Linktest/Separate.req, orphan Select/Deselect/Linktest.rsp, answer to the library's own Select.req, orphan Reject.req, data primary/secondary/foreign-session, PType!=0, undefined SType, control frame with body, second TCP connect / reconnect} replayed on a fresh real hsmsss connection per history (synctest bubble, in-memory network), every step compared with the SEMI E37 reference responder (exact frames FIFO, State(), handler deliveries, connection liveness); plus depth-1: every SType 0..255 x PType {0,1,255} x body {0,1} that is malformed, in selected and not-selected base states; plus stray header bytes: Select / Deselect / Linktest.req, orphan Linktest.rsp and Separate.req with header byte 2 in {0,1,0x81,0xFF} and byte 3 in {0,1,7,0xFF} (no meaning for these types), followed by the canonical frame: answered exactly like the canonical frame; configurations passive/active(after select, during select) x equip/host x session-id validation; plus bursts: N in {3,64,65,66,200} (thorough up to 1000; 64 = default depth of the send queue) Linktest.req / undefined-SType / PType!=0 frames in ONE segment at a Selected library (peer reading, or its window closed while they arrive): exactly N answers (Linktest.rsp / Reject.req reason 1 / 2) in arrival order each echoing its own system bytes, link and state unchanged. state = history prefix (a live connection cannot be cloned), non-trivial = history length >= 1")
 		c.Assume("testing/synctest virtual time and durable-blocking detection", "sim in-memory network", "reference responder written from SEMI E37/E37.1 tables", "library-generated system bytes modelled as one per-connection counter starting at 1")
 		if c.Replay != nil {
 			var bc burstCase
@@ -490,6 +505,26 @@ func TestCheck(t *testing.T) {
 								return
 							}
 							check(c, t, cfg, append(append([]event{}, base...), event{Kind: "raw", SType: byte(st), PType: pt, Body: body}))
+						}
+					}
+				}
+			}
+			// stray header bytes: control frames whose bytes 2 / 3 carry no meaning for their type, set
+			// to non-zero values, alone and followed by the canonical frame of the same type
+			for _, base := range [][]event{nil, {{Kind: "select.req"}}} {
+				for _, k := range []string{"select.req", "deselect.req", "linktest.req", "linktest.rsp", "separate.req"} {
+					for _, b2 := range []byte{0, 1, 0x81, 0xFF} {
+						for _, b3 := range []byte{0, 1, 7, 0xFF} {
+							if b2 == 0 && b3 == 0 {
+								continue
+							}
+							if !c.Next() {
+								continue
+							}
+							if c.Expired() {
+								return
+							}
+							check(c, t, cfg, append(append([]event{}, base...), event{Kind: k, StrayB2: b2, StrayB3: b3}, event{Kind: k}))
 						}
 					}
 				}
